@@ -154,9 +154,9 @@ fn run_actions(actions: &[String]) -> ! {
             "hang" => loop { unsafe { usleep(200_000) }; },
             "exit" => { let c: i32 = f[1].parse().unwrap_or(1); raw_log(b"end-exit", c as u128); let _ = std::io::stdout().flush(); unsafe { _exit(c) } }
             "kill" => { let s: i32 = f[1].parse().unwrap_or(9); raw_log(b"end-signal", s as u128); unsafe { signal(s, 0); raise(s); usleep(100_000); _exit(99) } }
-            "ignore" => { let s: usize = f[1].parse().unwrap_or(15); unsafe { SIG_MODE[s] = 1; signal(s as i32, on_signal as usize); } }
+            "ignore" => { let s: usize = f[1].parse().unwrap_or(15); unsafe { SIG_MODE[s] = 1; signal(s as i32, on_signal as *const () as usize); } }
             // onsig:<sig>:<exit code>:<delay ms>
-            "onsig" => { let s: usize = f[1].parse().unwrap_or(15); unsafe { SIG_MODE[s] = 2; SIG_CODE[s] = f[2].parse().unwrap_or(0); SIG_DELAY_MS[s] = f[3].parse().unwrap_or(0); signal(s as i32, on_signal as usize); } }
+            "onsig" => { let s: usize = f[1].parse().unwrap_or(15); unsafe { SIG_MODE[s] = 2; SIG_CODE[s] = f[2].parse().unwrap_or(0); SIG_DELAY_MS[s] = f[3].parse().unwrap_or(0); signal(s as i32, on_signal as *const () as usize); } }
             // child:<hold ms>:<new session 0|1>: a descendant that keeps stdout/stderr open
             "child" => {
                 let hold: u64 = f[1].parse().unwrap_or(0);
